@@ -790,7 +790,7 @@ class BaseSection(base.Sectionable):
         Clean up a merged section by removing objects that are totally equal
         to the linked object
         """
-        if self == section:
+        if self is section:
             raise RuntimeError("cannot unmerge myself?")
         removals = []
         for obj in section:
